@@ -66,7 +66,7 @@ QKEY = {"roll": lambda q: "roll/%s/s=%s" % (q["m"], q["s"]),
         "add_bus": lambda q: "add_bus/%s/s=%s" % (sgn(q["n"]), q["s"]),
         "lag": lambda q: "lag/%s/s=%s" % (sgn(q["n"]), q["s"]),
         "add_days": lambda q: "add_days/%s/%s" % (sgn(q["n"]), q["m"]),
-        "range": lambda q: "range",
+        "range": lambda q: "range", "cal_range": lambda q: "cal_range", "non_bus": lambda q: "non_bus",
         "add_months": lambda q: "add_months/%s/%s" % (q["roll"]["k"], q["m"]),
         "is_leap": lambda q: "is_leap", "imm_eom": lambda q: "imm_eom",
         "get_roll": lambda q: "get_roll/%s" % q["roll"]["k"],
@@ -129,7 +129,7 @@ def validate(pid, traces, tag, verdicts, shards=8):
 
 
 def count_owned(traces, pid):
-    owned = {"C04": {"roll"}, "C05": {"add_bus", "lag", "range", "add_days"}, "C08": {"add_months", "is_leap", "imm_eom", "get_roll", "add_months_raw"},
+    owned = {"C04": {"roll"}, "C05": {"add_bus", "lag", "range", "add_days", "cal_range", "non_bus"}, "C08": {"add_months", "is_leap", "imm_eom", "get_roll", "add_months_raw"},
              "C20": None}[pid]
     n = 0
     distinct = set()
